@@ -24,9 +24,18 @@ Fixpoint fk_obs (cfg : config) (s : fstate) (h : list block) : list obs :=
 Definition last_final (acc : option block) (evs : list event) : option block :=
   fold_left (fun a e => match estep e with SIrr | SNewIrr => Some (eblk e) | _ => a end) evs acc.
 
+(* the consumer stack is the parent path from its top down to the LIB: every block rests on its parent,
+   the oldest one is the LIB block itself or a child of the LIB *)
+Fixpoint on_path (lib : N) (st : cstack) : Prop :=
+  match st with
+  | [] => True
+  | x :: r => match r with y :: _ => bparent x = bid y | [] => root_ok lib x = true end /\ on_path lib r
+  end.
+
 (* After every incoming block: the events are accepted by the push/pop consumer, the top of the
-   consumer stack IS the reference tip (no tip iff the stack is empty), and (when Irreversible events
-   are delivered) the last block announced final is the reference's.  st = consumer stack before the
+   consumer stack IS the reference tip (no tip iff the stack is empty), the stack is the path from the
+   LIB to that tip, and (when Irreversible events are delivered) the last block announced final is the
+   reference's.  st = consumer stack before the
    block, fin = last final block before it, fc = reference state before it. *)
 Fixpoint c03_follows (cfg : config) (lib : N) (fc : fc_state) (st : cstack) (fin : option block)
          (h : list block) (t : trace) : Prop :=
@@ -34,7 +43,7 @@ Fixpoint c03_follows (cfg : config) (lib : N) (fc : fc_state) (st : cstack) (fin
   | b :: h', (evs, _) :: t' =>
       let fc' := fc_step (c_first cfg) (c_incl cfg) (c_alltrig cfg) fc b in
       exists st', apply_all lib st evs = Some st' /\
-                  hd_error st' = fc_tip fc' /\
+                  hd_error st' = fc_tip fc' /\ on_path lib st' /\
                   (f_irr (c_filter cfg) = true -> last_final fin evs = fc_final fc') /\
                   c03_follows cfg lib fc' st' (last_final fin evs) h' t'
   | _, _ => True
@@ -92,4 +101,5 @@ Definition c03_fixed_lib_statement : Prop :=
     let t := fk_run cfg (fs_init (LExcl r0)) h in
     c03_statement cfg (LExcl r0) h /\
     c03_follows cfg (ri r0) (fc_init (LExcl r0)) [] None h t /\
-    c03_noise cfg (fc_init (LExcl r0)) h t.
+    c03_noise cfg (fc_init (LExcl r0)) h t /\
+    c03_retention_statement cfg (LExcl r0) h.
